@@ -246,6 +246,10 @@ func Run(run *ev.Run) {
 			t := corpus.R(td.FullName())
 			for i := 0; i < perType; i++ {
 				v := g.Value(t, 0)
+				if i%3 == 1 {
+					// map keys that read like an array index or carry the path separators themselves
+					model.AddKeysToFirstMap(v, []string{"[0]", "[x]", "a.[1]", "k.l", "[", "0"})
+				}
 				base := refcodec.ToTree(set.Schema, t, v)
 				fields, _ := refcodec.RecordPositions(set.Schema, t, base, "")
 				n := len(fields)
